@@ -81,6 +81,12 @@ def run(ctx):
                 sscen.append(["scenario", "new 1 %d tcp" % fam, "bind 1", "listen 1", "new 2 %d tcp" % fam, "plan " + ",".join(["connect:EINTR"] * k), "connect 2 1",
                               "plan " + ",".join(["poll:EINTR"] * k), "accept 3 1", "send 2 5", "plan " + ",".join(["poll:LATE40"] * k), "set 3 timeout 400", "recv 3 10",
                               "plan " + ",".join(["poll:LATE60"] * k), "set 3 timeout %d" % (60 * k + 120), "recv 3 10"])
+        # very long timeouts (hours: beyond 2^31 microseconds) with an interruption early in the wait: what is left of the timeout is still hours, the
+        # call is served when the peer acts 150 ms later
+        for fam in (4, 6):
+            for T in (4295000, 8590000, 12884902, 2147484, 2147483647):
+                sscen.append(["scenario"] + socklib.tcp_pair(fam) + ["set 3 timeout %d" % T, "plan poll:EINTR", "bg recv 3 10", "sleepms 150", "send 2 6", "join",
+                              "plan poll:EINTR,poll:EINTR", "bg recv 3 10", "sleepms 100", "send 2 6", "join"])
         sp, tp = ctx.path("isock.script"), ctx.path("isock.ndjson")
         open(sp, "w").write("\n".join("\n".join(s) for s in sscen) + "\n")
         rc, out, to = run_driver([sexe, sp, tp], timeout=120)
